@@ -63,6 +63,179 @@ def run(ctx, rep):
     check_revert(fx, rep)
     check_storage_disposition(fx, rep, f)
     check_revert_slot_writers(fx, rep)
+    check_revert_latest(fx, rep)
+    check_plain_reverts(fx, rep)
+    check_add_transitions(fx, rep)
+
+
+def check_revert_latest(fx, rep):
+    """R9: revert_latest undoes exactly the LAST group: it pops it, applies BundleAccount::revert to
+    the account of every entry (a fresh LoadedNotExisting account if the bundle has none), removes /
+    does not insert the account exactly when revert says it can be dropped, and reports whether a
+    group existed; revert(n) repeats it until n groups are undone or none is left."""
+    BS = 'revm::db::states::bundle_state::BundleState::'
+    f = fx.fns.get(BS + 'revert_latest')
+    if f is None:
+        rep.undecided('R9-revert-latest', 'revert_latest', 'not found')
+        return
+    rep.fn(f)
+    try:
+        rs = Symx(fx, max_paths=4000, snapshot_refs=True).run(f)
+    except Budget:
+        rep.undecided('R9-revert-latest', 'revert_latest', 'path budget', f.where())
+        return
+    problems = []
+    seen = set()
+    for r in rs:
+        ev = [e[0].split('::')[-1] for e in r.events]
+        lits = [(render(l[0]), l[1]) for l in r.lits]
+        popped = [lit for t, lit in lits if t.startswith("discr(pop(&('arg', 1).reverts")]
+        if not popped:
+            problems.append('a path does not take the last group with reverts.pop()')
+            continue
+        if popped[0] != ('eq', 1):
+            if not (r.ret == K(0)):
+                problems.append('reports success although there was no group to revert')
+            seen.add('none')
+            continue
+        if not r.cut:
+            if r.ret != K(1):
+                problems.append('does not report success after reverting a group')
+            seen.add('done')
+            continue
+        occupied = [lit for t, lit in lits if t.startswith("discr(entry(&('arg', 1).state")]
+        rv = [(t, lit_truth(lit)) for t, lit in lits if t.startswith('revert(')]
+        if not occupied or not rv or 'revert' not in ev:
+            problems.append('an entry of the group is not applied with BundleAccount::revert')
+            continue
+        drop = rv[0][1]
+        if occupied[0] == ('eq', 0):
+            seen.add('occupied-drop' if drop else 'occupied-keep')
+            if ('remove' in ev) != bool(drop):
+                problems.append('an existing account is %s although revert() says it %s be dropped' % ('removed' if 'remove' in ev else 'kept', 'can' if drop else 'cannot'))
+        else:
+            seen.add('vacant-drop' if drop else 'vacant-insert')
+            if 'new' not in ev:
+                problems.append('a missing account is not rebuilt from a fresh LoadedNotExisting account')
+            if ('insert' in ev) == bool(drop):
+                problems.append('a rebuilt account is %s although revert() says it %s be dropped' % ('inserted' if 'insert' in ev else 'not inserted', 'can' if drop else 'cannot'))
+    need = {'none', 'done', 'occupied-drop', 'occupied-keep', 'vacant-drop', 'vacant-insert'}
+    if not problems and seen != need:
+        problems.append('paths not recognised: %s' % sorted(need - seen))
+    if problems:
+        rep.violation('R9-revert-latest', 'revert_latest', 'BundleState::revert_latest: ' + sorted(set(problems))[0], f.where())
+    else:
+        rep.ok('R9-revert-latest', 'revert_latest', 'pops the last group; revert() applied per entry; dropped iff it says so')
+    g = fx.fns.get(BS + 'revert')
+    if g is not None:
+        rep.fn(g)
+        calls = [t for _, t in g.calls() if (t.target_fn or '') == BS + 'revert_latest']
+        others = [t for _, t in g.calls() if (t.target_fn or '').startswith(BS) and (t.target_fn or '') != BS + 'revert_latest']
+        if len(calls) == 1 and not others:
+            rep.ok('R9-revert-latest', 'revert(n)', 'a loop over revert_latest')
+        else:
+            rep.violation('R9-revert-latest', 'revert(n)', 'BundleState::revert does not undo groups one by one through revert_latest (%d calls, others: %s)' % (len(calls), [(t.target_fn or '').split('::')[-1] for t in others]), g.where())
+
+
+def check_plain_reverts(fx, rep):
+    """R10: to_plain_state_reverts, per group and entry: RevertTo(info) -> (address, Some(info)),
+    DeleteIt -> (address, None), DoNothing -> no account entry; a storage entry exists iff the
+    revert wipes storage or lists slots, with wiped = wipe_storage; one output group per group."""
+    f = fx.fns.get('revm::db::states::reverts::Reverts::to_plain_state_reverts')
+    if f is None:
+        rep.undecided('R10-plain-reverts', 'to_plain_state_reverts', 'not found')
+        return
+    rep.fn(f)
+    try:
+        rs = Symx(fx, max_paths=6000, snapshot_refs=True).run(f)
+    except Budget:
+        rep.undecided('R10-plain-reverts', 'to_plain_state_reverts', 'path budget', f.where())
+        return
+    AIR = 'revm::db::states::reverts::AccountInfoRevert'
+    import c15 as _c15
+    problems = []
+    kinds = set()
+    for r in rs:
+        if not r.cut:
+            continue
+        variant = None
+        wipe = None
+        empty = None
+        for (sv, lit, _f, _b) in r.lits:
+            txt = render(sv)
+            if txt.startswith('discr(deref(next(') and lit[0] == 'eq' and '.account' in _c15.render_deep(sv):
+                variant = fx.variant_by_discr(AIR, lit[1])
+            if 'wipe_storage' in _c15.render_deep(sv) and not txt.startswith('discr('):
+                wipe = lit_truth(lit)
+            if txt.startswith('is_empty('):
+                empty = lit_truth(lit)
+        pushes = [_c15.render_deep(e[1][1]) for e in r.events if e[0].endswith('Vec::push') and len(e[1]) > 1]
+        acc = [p_ for p_ in pushes if p_.startswith('tuple')]
+        sto = [p_ for p_ in pushes if p_.startswith('PlainStorageRevert')]
+        if variant is None:
+            continue
+        kinds.add(variant)
+        if variant == 'DoNothing' and acc:
+            problems.append('DoNothing produces an account entry')
+        if variant == 'DeleteIt' and not (len(acc) == 1 and 'Option::None' in acc[0]):
+            problems.append('DeleteIt does not produce (address, None)')
+        if variant == 'RevertTo' and not (len(acc) == 1 and 'Option::Some' in acc[0]):
+            problems.append('RevertTo does not produce (address, Some(info))')
+        # emitted iff wipe_storage or the slot list is not empty, whatever the order of the two tests
+        poss = set()
+        for w_ in ([wipe] if wipe is not None else [True, False]):
+            for e_ in ([empty] if empty is not None else [True, False]):
+                poss.add(bool(w_ or not e_))
+        if poss != {bool(sto)}:
+            problems.append('a storage revert is %s after testing wipe_storage=%s, slots empty=%s (it must exist iff the revert wipes storage or lists slots)' % (
+                'emitted' if sto else 'omitted', 'untested' if wipe is None else wipe, 'untested' if empty is None else empty))
+        for s_ in sto:
+            if 'wiped: ' not in s_ or 'wipe_storage' not in s_.split('wiped: ', 1)[1][:160]:
+                problems.append('the wiped flag of the storage revert is not the revert\'s wipe_storage')
+    if not problems and kinds != {'DoNothing', 'DeleteIt', 'RevertTo'}:
+        problems.append('variants not recognised: %s' % sorted(kinds))
+    if problems:
+        rep.violation('R10-plain-reverts', 'to_plain_state_reverts', 'Reverts::to_plain_state_reverts: ' + sorted(set(problems))[0], f.where())
+    else:
+        rep.ok('R10-plain-reverts', 'to_plain_state_reverts', 'account entry per variant; storage entry iff wipe or slots; wiped = wipe_storage')
+
+
+def check_add_transitions(fx, rep):
+    """R11: TransitionState::add_transitions accumulates per address: an address already present is
+    updated with TransitionAccount::update (the composition decided in C16 R2), a new one inserted."""
+    f = fx.fns.get('revm::db::states::transition_state::TransitionState::add_transitions')
+    if f is None:
+        rep.undecided('R11-add-transitions', 'add_transitions', 'not found')
+        return
+    rep.fn(f)
+    try:
+        rs = Symx(fx, max_paths=2000, snapshot_refs=True).run(f)
+    except Budget:
+        rep.undecided('R11-add-transitions', 'add_transitions', 'path budget', f.where())
+        return
+    seen = set()
+    problems = []
+    for r in rs:
+        if not r.cut:
+            continue
+        ev = [e[0].split('::')[-1] for e in r.events]
+        occ = [l[1] for l in r.lits if render(l[0]).startswith("discr(entry(&('arg', 1).transitions")]
+        if not occ:
+            continue
+        if occ[0] == ('eq', 0):
+            seen.add('occupied')
+            if 'update' not in ev or 'insert' in ev:
+                problems.append('a transition for an address already present is not merged with TransitionAccount::update')
+        else:
+            seen.add('vacant')
+            if 'insert' not in ev:
+                problems.append('a transition for a new address is not inserted')
+    if not problems and seen != {'occupied', 'vacant'}:
+        problems.append('paths not recognised: %s' % sorted(seen))
+    if problems:
+        rep.violation('R11-add-transitions', 'add_transitions', 'TransitionState::add_transitions: ' + sorted(set(problems))[0], f.where())
+    else:
+        rep.ok('R11-add-transitions', 'add_transitions', 'update for present addresses, insert for new ones')
 
 
 def check_storage_disposition(fx, rep, f):
